@@ -179,3 +179,37 @@ fn a_deferred_self_disable_survives_operations_on_other_sources() {
         assert_eq!(n, 2, "variant {}: the ping that arrived while disabled is delivered after enable()", variant);
     }
 }
+
+/// round 9 (seed C09-5): a source defers a disable/update of itself and then removes itself in the same callback; the
+/// deferred request dies with it and is not applied to the next source that returns Continue (in the same or a later batch)
+#[test]
+fn a_deferred_request_of_a_self_removed_source_does_not_reach_another_source() {
+    use calloop::ping::make_ping;
+    use calloop::{EventLoop, RegistrationToken};
+    use std::cell::Cell;
+    use std::rc::Rc;
+    use std::time::Duration;
+    for variant in 0..4u8 {
+        let mut el: EventLoop<u32> = EventLoop::try_new().unwrap();
+        let h = el.handle();
+        let (pa, sa) = make_ping().unwrap();
+        let (pb, sb) = make_ping().unwrap();
+        let ta: Rc<Cell<Option<RegistrationToken>>> = Rc::new(Cell::new(None));
+        let (h2, ta2) = (h.clone(), ta.clone());
+        ta.set(Some(h.insert_source(sa, move |_, _, _| {
+            let me = ta2.get().unwrap();
+            if variant & 1 == 0 { h2.disable(&me).unwrap(); } else { h2.update(&me).unwrap(); }
+            h2.remove(me);
+        }).unwrap()));
+        let _tb = h.insert_source(sb, |_, _, n: &mut u32| *n += 1).unwrap();
+        let mut n = 0;
+        pa.ping();
+        if variant & 2 != 0 { pb.ping(); }                    // B in the same batch as A, or only in a later one
+        el.dispatch(Duration::from_millis(100), &mut n).unwrap();
+        for round in 0..2 {
+            pb.ping();
+            el.dispatch(Duration::from_millis(100), &mut n).unwrap();
+            assert_eq!(n, round + 1 + (variant >> 1) as u32, "variant {}: source B lost an event: it was disabled by the request source A deferred for itself", variant);
+        }
+    }
+}
